@@ -287,6 +287,24 @@ func (v *Verifier) isLocalName(env *Env, name string) bool {
 }
 
 func (v *Verifier) evalIdent(env *Env, name string) Val {
+	if name == "$pos" {
+		// byte position of the string iterator of the enclosing range-over-string loop
+		fr := env.fr
+		if fr == nil || env.at == nil {
+			encFail("spec: $pos used outside a loop invariant")
+		}
+		var it *ssa.Range
+		for _, r := range fr.iters {
+			if r.Block() == env.at || r.Block().Dominates(env.at) {
+				it = r
+			}
+		}
+		if it == nil {
+			encFail("spec: $pos: no string iterator in scope")
+		}
+		iv := fr.vals[it]
+		return Val{K: KInt, T: types.Typ[types.Int], A: fr.readLeaf(env.cur, iv.Loc, "", "Int")}
+	}
 	if val, ok := env.vars[name]; ok {
 		// inside a loop invariant a reassigned parameter denotes its current value (old(x) gives the entry value)
 		if env.fr != nil && env.at != nil && !env.bound[name] {
@@ -861,6 +879,15 @@ func (v *Verifier) evalCall(env *Env, x *SCall) Val {
 		a := v.evalSpec(env, x.Args[0])
 		v.bitAxioms()
 		return Val{K: KInt, A: app("pow2", a.A)}
+	case "runeat", "widthat":
+		// trusted UTF-8 decode spec: rune decoded at a byte offset of a string and its width
+		a := v.evalSpec(env, x.Args[0])
+		i := v.evalSpec(env, x.Args[1])
+		v.strPrelude(v.ctx)
+		if id.Name == "runeat" {
+			return Val{K: KInt, T: types.Typ[types.Int32], A: app("srune", a.A, i.A)}
+		}
+		return Val{K: KInt, T: types.Typ[types.Int], A: app("swidth", a.A, i.A)}
 	case "wrap32":
 		a := v.evalSpec(env, x.Args[0])
 		return Val{K: KInt, T: types.Typ[types.Int32], A: v.curRoot.wrap(a.A, types.Typ[types.Int32])}
@@ -926,6 +953,7 @@ func (v *Verifier) applySpecFunc(env *Env, sf *SpecFunc, args []SExpr) Val {
 		}
 		rt := v.resolveType(sfPkg, sf.Result)
 		f := v.ctx.declareFun("G!"+sf.PkgName+"."+sf.Name, sorts, scalarSort(rt))
+		v.libAxiomsFor(env, sf)
 		return Val{K: kindOf(rt), T: rt, A: app(f, terms...)}
 	}
 	if t, ok := v.tryDefineFun(env, sf, sfPkg, avals); ok && os.Getenv("GOVC_NODEF") == "" {
@@ -1077,4 +1105,31 @@ func (v *Verifier) ghostFieldLoc(env *Env, base Val, name string) (*Loc, types.T
 	}
 	gt := v.resolveType(v.pkgByName(env.pkg, gf.Pkg), gf.Type)
 	return &Loc{Comp: "H:" + tn + "." + name, Ref: base.A, T: gt}, gt
+}
+
+// libAxiomsFor asserts (once per function encoding) the library axioms that define a library ghost function,
+// the first time that function is used. Library axioms are state independent (they talk about strings only).
+func (v *Verifier) libAxiomsFor(env *Env, sf *SpecFunc) {
+	if sf.PkgName != "lib" {
+		return
+	}
+	key := "libax:" + sf.Name
+	if v.facts[key] {
+		return
+	}
+	v.facts[key] = true
+	for _, ax := range v.contracts.Axioms {
+		if ax.PkgName != "lib" || !strings.Contains(ax.Text, sf.Name+"(") {
+			continue
+		}
+		akey := "libaxiom:" + ax.Name
+		if v.facts[akey] {
+			continue
+		}
+		v.facts[akey] = true
+		ne := &Env{fr: env.fr, vars: map[string]Val{}, cur: v.curRoot.entrySt, old: v.curRoot.entrySt, pkg: nil}
+		t := v.evalBool(ne, ax.Expr)
+		v.ctx.assert(t, "library axiom "+ax.Name+": "+ax.Text)
+		v.axiomsUsed["lib."+ax.Name] = true
+	}
 }
